@@ -49,6 +49,8 @@ __all__ = [
 # stdlib imports
 import logging
 import datetime
+import os
+import threading
 import http.cookiejar
 import uuid
 import xml.etree.ElementTree as ET
@@ -536,10 +538,16 @@ class OFXClient:
             dtprofup_server = proftrnrs.profrs.dtprofup
             assert dtprofup is None or dtprofup <= dtprofup_server
 
-            # Cache the updated PROFRS sent by the server
+            # Cache the updated PROFRS sent by the server.
+            # Write to a private temporary file and rename it into place, so that
+            # a crash or a concurrent request never sees a truncated or mixed cache.
             response.seek(0)
-            with open(persistpath, "wb") as f:
+            tmppath = persistpath.with_name(
+                f"{persistpath.name}.{os.getpid()}-{threading.get_ident()}.tmp"
+            )
+            with open(tmppath, "wb") as f:
                 f.write(response.read())
+            os.replace(tmppath, persistpath)
 
         # Rewind PROFRS so it can be returned cleanly after having been parsed.
         response.seek(0)
